@@ -29,6 +29,8 @@ pub fn dispatch(ctx: &Ctx, rest: &[String]) -> i32 {
         "C14" => c14::run(ctx),
         "C15" => c15::run(ctx),
         "C16" => c16::run(ctx),
+        "C19" => c19::run(ctx),
+        "C19-stress" => c19::stress_child(ctx, rest),
         "C17" => c17::run(ctx),
         "C06-child" => c06::child(ctx, rest),
         other => {
@@ -194,5 +196,6 @@ pub mod c14;
 pub mod c15;
 pub mod c16;
 pub mod c17;
+pub mod c19;
 pub mod hist;
 pub mod histcheck;
